@@ -172,6 +172,25 @@ func (r *rewriter) rewriteStmt(st ast.Stmt) []ast.Stmt {
 	case *ast.SelectStmt:
 		return []ast.Stmt{r.yield(s.Pos(), "select<"), s}
 	case *ast.RangeStmt:
+		// pkg/api/watcher.go only: the watcher collects the keys of a map into a slice and
+		// then shuffles the slice with the (redirected, seeded) PRNG. Sorting the collected
+		// keys first picks one of the legal map iteration orders and makes the shuffle - and
+		// with it the order of the watcher's polls - a function of the tape.
+		if r.rel == "pkg/api/watcher.go" && s.Value == nil && s.Key != nil && len(s.Body.List) == 1 {
+			if as, ok := s.Body.List[0].(*ast.AssignStmt); ok && len(as.Lhs) == 1 && len(as.Rhs) == 1 {
+				if call, ok := as.Rhs[0].(*ast.CallExpr); ok && len(call.Args) == 2 {
+					if fn, ok := call.Fun.(*ast.Ident); ok && fn.Name == "append" {
+						dst, ok1 := as.Lhs[0].(*ast.Ident)
+						src, ok2 := call.Args[0].(*ast.Ident)
+						key, ok3 := s.Key.(*ast.Ident)
+						arg, ok4 := call.Args[1].(*ast.Ident)
+						if ok1 && ok2 && ok3 && ok4 && dst.Name == src.Name && key.Name == arg.Name {
+							return []ast.Stmt{s, &ast.ExprStmt{X: r.call("SortStrings", ast.NewIdent(dst.Name))}}
+						}
+					}
+				}
+			}
+		}
 		if r.chanName[lastName(s.X)] && s.Value == nil {
 			// for x := range ch { body }  ->  Yield; for x := range ch { Yield; body; Yield }; Yield
 			s.Body.List = append(append([]ast.Stmt{r.yield(s.Pos(), "range>")}, s.Body.List...), r.yield(s.Pos(), "range<"))
